@@ -524,7 +524,13 @@ fn main() {
                 d.1,
                 coq_natlist(d.2.iter().cloned()),
                 coq_natlist(d.3.iter().cloned()),
-                coq_nlist(d.4.iter().map(|x| *x as u128))
+                format!(
+                    "[{}]%N",
+                    d.4.iter()
+                        .map(|x| if *x == 1.0f64.to_bits() { "o1".to_string() } else { x.to_string() })
+                        .collect::<Vec<_>>()
+                        .join(";")
+                )
             )),
             obs_coq(&bary, |b| b.to_string()),
             obs_coq(&used, |u| u.to_string()),
